@@ -133,11 +133,13 @@ Definition printed_ok (cls : class) (p : Z) (pre : bytes) (v : b64) (str : bytes
       match parse_fixed str, exact_factor cls pre with
       | None, Some (fn, fd) =>
           (* the quotient by a sub-unit factor can leave the binary64 range
-             (|v| > 1.8e299 scaled together with a tiny value): then, and only
-             then, a finite value prints as an infinity *)
-          if beq str ((if s then bs "-Inf" else bs "+Inf") ++ pre)
-             && (2 ^ 1023 * fn * 2 ^ (Z.max (- e) 0) <=? Zpos m * 2 ^ (Z.max e 0) * fd)
-          then Some (2 ^ 1100) else None
+             (|v| > 1.8e299 scaled together with a tiny value): a finite value
+             then prints as an infinity *)
+          (* KNOWN FINDING C10_shared_scale_quotient_overflow: the real code prints
+             "+Inf<prefix>" there, which is not within half a unit of the value, so the
+             property fails on such a case (the harness tags it; corr_ok still ties
+             the model's +Inf to the code's) *)
+          None
       | Some pf, Some (fn, fd) =>
           if Bool.eqb (pf_neg pf) s && (Z.of_nat (pf_prec pf) =? p) && beq (pf_rest pf) pre
              && half_unit_ok true 51 m e (pf_scaled pf) (pf_prec pf) fn fd
